@@ -5,7 +5,10 @@
    starts with `String::from_utf8`; UTF-8 coding itself is outside the model (the harness decodes/encodes).
 
    export_*  : control skeleton of each `match` arm (template-matched by translator/gen_palette.py) around the
-               line printers exp_<fmt>_* generated from the `format!` strings (Gen/PaletteSrc.v).
+               line printers exp_<fmt>_* generated from the `format!` strings and their argument lists
+               (Gen/PaletteSrc.v).  The printers of title / author / description / colour name print
+               `single_line <text>` because the calls pass `single_line(&self.title)` …; `single_line` itself is
+               generated from `fn single_line` (str::replace of '\r' and '\n' by " " = Lib/C16Lib.str_replace_chars).
    load_*    : `data.lines().enumerate()` loops with hand-written matchers for the regular expressions
                (pinned by the translator; any other regex breaks stage G):
                  HEX_REGEX / ICE_COLOR_REGEX   ([0-9a-fA-F]{2}){3}          hex6_at, hex_scan, hex6_search
